@@ -49,10 +49,19 @@ func closeOut() {
 // results handed out earlier are inspected again, and by sources between two pieces of a delivery - a library that
 // ties the life of a buffer to an object the caller no longer sees shows up then.
 func settle() {
-	runtime.GC()
-	runtime.Gosched()
-	runtime.GC()
-	time.Sleep(time.Millisecond)
+	for round := 0; round < 2; round++ {
+		// a sentinel whose own finalizer reports that the finalizer goroutine has worked through this cycle's queue
+		done := make(chan struct{})
+		s := new([16]byte)
+		runtime.SetFinalizer(s, func(*[16]byte) { close(done) })
+		s = nil
+		runtime.GC()
+		select {
+		case <-done:
+		case <-time.After(200 * time.Millisecond):
+		}
+		time.Sleep(200 * time.Microsecond)
+	}
 }
 
 // gcStorm keeps the collector busy until stop is called (memory pressure from the rest of the process).
